@@ -115,7 +115,7 @@ def generate(ctx, rng):
     yield case([["operational_mode", "cool", 2], ["target_temperature", "20.5", 20.5], ["fan_speed", "100", 100], ["display_on", "True", True], ["beep", "0", False]], fresh=True)
     # --capabilities against units with a restricted capability profile (no custom fan speeds, few modes / presets) that report
     # values outside the profile: settings not on the command line must stay as reported
-    for j in range(40 if quick else 7500):
+    for j in range(40 if quick else 15000):
         pairs = rng.sample([["power_state", "1", True], ["power_state", "0", False], ["eco", "1", True], ["sleep", "True", True], ["turbo", "0", False],
                             ["target_temperature", "24.5", 24.5], ["target_humidity", "55", 55.0], ["purifier", "1", True], ["follow_me", "0", False],
                             ["fahrenheit", "1", True], ["display_on", "1", True], ["display_on", "0", False], ["beep", "1", True]], rng.randint(1, 2))
@@ -147,9 +147,9 @@ def generate(ctx, rng):
             singles.append([name, sp, float(sp)])
     pairs = [(a, b) for a, b in itertools.combinations(singles, 2) if a[0] != b[0]]
     rng.shuffle(pairs)
-    for a, b in pairs[: (350 if quick else 100000)]:
+    for a, b in pairs[: (350 if quick else 200000)]:
         yield case([a, b])
-    for _ in range(60 if quick else 200000):
+    for _ in range(60 if quick else 400000):
         k = rng.randint(2, 6)
         chosen, names = [], set()
         for s in rng.sample(singles, 30):
@@ -165,7 +165,7 @@ def generate(ctx, rng):
             n += 1
             yield ("i", n), {"kind": "invalid", "args": inv, "state": gen.random_state(rng), "display": True, "v3": v3, "caps": False, "dseed": i,
                              "auto": auto}
-    for _ in range(40 if quick else 10000):
+    for _ in range(40 if quick else 20000):
         good = rng.sample(singles, rng.randint(0, 2))
         bad = rng.choice([x for x in INVALID if len(x) == 1])
         args = [f"{g[0]}={g[1]}" for g in good]
